@@ -34,6 +34,9 @@ for i, z in enumerate(zones):
     e.add("rdate", [datetime.datetime(2020, 2, 1 + i, 10), datetime.datetime(2020, 2, 1 + i, 10), datetime.datetime(2020, 1, 5, 9)])
     e.add("attendee", "mailto:a@x", parameters={"MEMBER": ["m2", "m1", "m2"], "CN": "n", "ROLE": "r", "DELEGATED-TO": ["d2", "d1"]})
     e.add("resources", ["r2", "r1", "r2"])
+    # date lists whose elements carry different zones (the line has one TZID parameter: which one must not depend on hashing)
+    e.add("exdate", [datetime.datetime(2020, 3, 1 + i, 9, tzinfo=zoneinfo.ZoneInfo(zones[(i + k) % 5])) for k in range(4)])
+    e.add("rdate", [datetime.datetime(2020, 4, 1, 9, tzinfo=zoneinfo.ZoneInfo(zones[(i + 2) % 5])), datetime.datetime(2020, 4, 2, 9, tzinfo=zoneinfo.ZoneInfo(z))])
     c.add_component(e)
 c.add_missing_timezones()
 sys.stdout.write(hashlib.sha256(c.to_ical()).hexdigest())
